@@ -84,5 +84,15 @@ def run(ctx):
             a, o, t = gen_valid_signed_sum(ctx.rng)     # explicit signs against thresholds of either sign, leaves around zero
         for _ in range(4):
             # values may lie outside a leaf's declared bounds: the interpretation wins (variable.evaluate's documented behaviour)
-            I = gen_interp(ctx.rng, t, total=True, ranges=False, in_bounds=ctx.rng.random() < 0.6)
+            # (a sub-proposition id may be named with the non-fixing range (0, 1): it is then computed from its children)
+            I = gen_interp(ctx.rng, t, total=True, ranges=False, in_bounds=ctx.rng.random() < 0.6, compound_ranges=ctx.rng.random() < 0.5)
             do_case(ctx, {"ast": a, "I": {k: list(v) for k, v in I.items()}})
+        if ctx.rng.random() < 0.3:
+            # a leaf DECLARED constant and interpreted otherwise
+            v = constant_leaf_variant(ctx.rng, a, t)
+            if v is not None:
+                a2, t2, name, entry = v
+                I = gen_interp(ctx.rng, t2, total=True, ranges=False, in_bounds=True)
+                I[name] = (entry[0], entry[0])
+                ctx.tags["constant-leaf-interpreted-otherwise"] += 1
+                do_case(ctx, {"ast": a2, "I": {k: list(v_) for k, v_ in I.items()}})
